@@ -358,6 +358,9 @@ pub fn roundtrip<T: SerdeAPI>(ctx: &mut Ctx, name: &str, x: &T, rng: &mut Rng, w
                 Err(e) => ctx.violate_sig("C17", "roundtrip", "file channel = string channel", format!("{name} in {}: {e:#}", fmt.ext()), sg.clone()),
             }
             ctx.hit("fault.crash.file_channel");
+            if let Some(k) = c2.counters.get("fault.disk.older_longer_file_in_place") {
+                ctx.add("fault.disk.older_longer_file_in_place", *k);
+            }
         }
     }
 }
